@@ -1490,9 +1490,20 @@ class FlowIR(object):
 
                     translation_map[ref_str].append(rewritten)
 
+        def absolute_reference_length(ref):
+            # type: (str) -> int
+            stage_index, producer, filename, method = cls.ParseDataReferenceFull(ref, comp_stage)
+            return len(cls.compile_reference(producer, filename, method, stage_index))
+
+        # VV: The references are rewritten one after the other on the same string and the text that is inserted for
+        # `Run:ref` (e.g. `stage0.Run1:ref`) is also how one spells a reference to a different replicated component
+        # (`Run1`). Rewrite the references to the components with the longest names first so that text which has just
+        # been inserted cannot be rewritten a second time.
+        ordered_refs = sorted(refs_to_replicate, key=absolute_reference_length, reverse=True)
+
         def aggregate(string):
             # type: (str) -> str
-            for ref in refs_to_replicate:
+            for ref in ordered_refs:
                 # This re will find references followed by paths
                 # If ref is followed by a path then we have to replicate the path everywhere
                 # e.g. Component:ref/file.txt -> Component1:ref/file.txt Component2:ref/file.txt etc
